@@ -11,7 +11,7 @@ typedef struct val {
 } val;
 
 typedef struct ku {
-    int id, is_task, pool, nops;
+    int id, is_task, pool, nops, revive;
     ABT_thread th;
     volatile int started, done;
     /* reference map: last value per key, by writer class: 0 = the unit itself, 1 = remote */
@@ -30,7 +30,7 @@ static struct {
     val V[MAXV];
     int nv;
     volatile int go, remote_done;
-    long gets, sets, remote_sets, dtors;
+    long gets, sets, remote_sets, dtors, revives;
 } S;
 
 static void dtor(void *p)
@@ -119,6 +119,20 @@ static void unit_fn(void *arg)
     sim_progress();
 }
 
+/* second incarnation of a revived unit: it is the same work unit, so it still has its values */
+static void revived_fn(void *arg)
+{
+    ku *u = (ku *)arg;
+    for (int k = 0; k < S.nk; k++) {
+        void *got = (void *)1;
+        ABT_OK(ABT_key_get(S.keys[k], &got));
+        SIM_CHECK(got == (void *)u->last[k], "key:wrong-value", "unit %d key %d after revive: get returned %p, last value set is %p", u->id, k, got, (void *)u->last[k]);
+    }
+    self_ops(u);
+    u->done = 2;
+    sim_progress();
+}
+
 /* sets keys of other (running) ULTs: races with the owner's lazy key-table creation */
 static void remote_setter(void *arg)
 {
@@ -165,6 +179,7 @@ static void run_c16(void)
         u->is_task = i < n && plan_n(4) == 0;
         u->pool = (int)plan_n((uint32_t)rt->npools);
         u->nops = plan_range(1, sim_limit("ops", 20));
+        u->revive = i < n && plan_n(3) == 0;
         for (int j = 0; j < u->nops; j++) {
             u->ops[j] = (int)plan_n(5); /* 0,1 get; 2,3 set; 4 set NULL */
             u->okey[j] = (int)plan_n((uint32_t)S.nk);
@@ -205,6 +220,25 @@ static void run_c16(void)
                 SIM_CHECK(got == (void *)u->last[k], "key:wrong-value", "unit %d key %d: final value %p, expected %p", i, k, got, (void *)u->last[k]);
             }
         }
+        if (u->revive) {
+            /* revive keeps the unit and therefore its storage; destructors run at the free */
+            ABT_OK(ABT_thread_join(u->th));
+            for (int v = 0; v < S.nv; v++)
+                if (S.V[v].unit == i)
+                    SIM_CHECK(S.V[v].dtor_calls == 0, "key:destructor-early", "destructor ran for a value of unit %d before the unit was freed", i);
+            if (u->is_task)
+                ABT_OK(ABT_task_revive(rt->pools[u->pool], revived_fn, u, &u->th));
+            else
+                ABT_OK(ABT_thread_revive(rt->pools[u->pool], revived_fn, u, &u->th));
+            ABT_OK(ABT_thread_join(u->th));
+            SIM_CHECK(u->done == 2, "once:not-exactly-once", "revived unit %d did not run", i);
+            for (int k = 0; k < S.nk; k++) {
+                void *got = (void *)1;
+                ABT_OK(ABT_thread_get_specific(u->th, S.keys[k], &got));
+                SIM_CHECK(got == (void *)u->last[k], "key:wrong-value", "unit %d key %d: value after the revived incarnation %p, expected %p", i, k, got, (void *)u->last[k]);
+            }
+            S.revives++;
+        }
         ABT_OK(ABT_thread_free(&u->th));
         for (int k = 0; k < S.nk; k++)
             if (u->last[k])
@@ -237,5 +271,6 @@ static void run_c16(void)
     sim_count("c16.gets", (uint64_t)S.gets);
     sim_count("c16.remote_sets_while_owner_runs", (uint64_t)S.remote_sets);
     sim_count("c16.destructor_calls", (uint64_t)S.dtors);
+    sim_count("c16.revives", (uint64_t)S.revives);
 }
 SIM_WORKLOAD("C16", "keys", run_c16, 10)
